@@ -142,6 +142,8 @@ class Ext:
       isinst   f(fn, path, g, t, clsname, env, kt, kf) -> text | None          (isinstance tests)
       stmt     f(fn, stmt, env) -> (prefix text ending in "in\n" or "", new env) | None   (expression statements, awaits,
                attribute assignments: effects and re-bindings)
+      fact_test f(fn, g, t, env, kt, kf) -> text      (truthiness test of a value whose Ty carries a `fact` attribute:
+               a Boolean local holding the outcome of an isinstance test; used by the monadic backend pygal_m.py)
       raise_   Gallina text of "an exception left the function" for the declared return type"""
 
     def __init__(self, **kw):
@@ -437,6 +439,8 @@ def tr_test(fn, node, env, kt, kf):
     # truthiness of a value / a Boolean expression
     p = path_of(node)
     g, t = tr_expr(fn, node, env)
+    if getattr(t, "fact", None) is not None and getattr(fn.ext, "fact_test", None) is not None:
+        return fn.ext.fact_test(fn, g, t, env, kt, kf)      # a Boolean that holds the outcome of an isinstance test
     if t.kind == "opt":
         if p is None:
             _bad("truthiness of an Optional expression that is not an access path", node)
